@@ -174,8 +174,17 @@ def run_real_sched(procs, logger_dt, tf):
     import cyecca.sim.uros as uros
     import cyecca.sim.msgs as msgs
     core = uros.Core()
-    topics = sorted(set(t for t, _ in procs))
+    # procs: (topic, period) periodic publisher, or ("set", value, period): a process that sets logger/dt to value every period
+    topics = sorted(set(t for t, _ in [q for q in procs if q[0] != "set"]))
     pubs = {t: uros.Publisher(core, "t%d" % t, msgs.Imu) for t in topics}
+
+    sets = []
+
+    def setter(value, period):
+        while True:
+            sets.append((int(round(core.now * TICK)), value))
+            core.set_param("logger/dt", value / TICK)
+            yield simpy.Timeout(core, period / TICK)
 
     def proc(pid, topic, period):
         c = 0
@@ -187,8 +196,11 @@ def run_real_sched(procs, logger_dt, tf):
             m.data["accel"] = 0
             pubs[topic].publish(m)
             yield simpy.Timeout(core, period / TICK)
-    for pid, (t, per) in enumerate(procs):
-        simpy.Process(core, proc(pid, t, per))
+    for pid, q in enumerate(procs):
+        if q[0] == "set":
+            simpy.Process(core, setter(q[1], q[2]))
+        else:
+            simpy.Process(core, proc(pid, q[0], q[1]))
     lg = uros.Logger(core)
     core.init_params()
     core.set_param("logger/dt", logger_dt / TICK)
@@ -202,6 +214,19 @@ def run_real_sched(procs, logger_dt, tf):
             if not np.isnan(v):
                 snap.append((t, int(v)))
         rows.append((int(round(float(r["time"]) * TICK)), sorted(snap)))
+    # the property itself, on the real rows: consecutive rows are one logging period apart, the period being the
+    # logger/dt in force when the earlier row was written (an update at exactly that instant may come first or second)
+    stamps = [t for t, _ in rows]
+    inp = {"procs": [list(q) for q in procs], "logger_dt_ticks": logger_dt, "until_ticks": tf, "tick_s": 1.0 / TICK}
+    for t1, t2 in zip(stamps, stamps[1:]):
+        before = [v for (ts, v) in sets if ts < t1]
+        allowed = {before[-1] if before else logger_dt} | {v for (ts, v) in sets if ts == t1}
+        if t2 < t1 or (t2 - t1) not in allowed:
+            PROPERTY_FAILURES.append({"unit": "uros.Logger.run", "class": "one_row_per_period", "input": inp, "expected": "next row %s ticks after the row at %d" % (sorted(allowed), t1), "observed": [t1, t2],
+                                      "what": "logger rows are not one logging period apart (logger/dt in force when the earlier row was written)"})
+            break
+    if stamps and stamps[0] != 0:
+        PROPERTY_FAILURES.append({"unit": "uros.Logger.run", "class": "first_row_at_start", "input": inp, "expected": 0, "observed": stamps[0], "what": "first logger row not written at the start of the run"})
     return rows
 
 
@@ -210,6 +235,10 @@ def sched_correspondence(rng, n):
     for _ in range(n):
         k = int(rng.integers(1, 5))
         procs = [(int(rng.integers(1, 4)), int(rng.choice([1, 2, 3, 4, 5, 8]))) for _ in range(k)]
+        # in half of the runs logger/dt is changed while the simulation runs (one or two updating processes)
+        if rng.random() < 0.5:
+            for _ in range(int(rng.integers(1, 3))):
+                procs.insert(int(rng.integers(0, len(procs) + 1)), ("set", int(rng.choice([1, 2, 3, 4, 6, 8])), int(rng.choice([7, 9, 11, 16, 25]))))
         cases.append((procs, int(rng.choice([1, 2, 4, 5, 8])), int(rng.integers(5, 60))))
     sink = io.StringIO()
     reals = []
@@ -219,14 +248,14 @@ def sched_correspondence(rng, n):
     lines = ["From Coq Require Import List ZArith NArith.", "From Cyecca Require Import Model.Sched.", "Import ListNotations.", "Local Open Scope Z_scope.",
              "Definition show (r : Z * list (N * N)) : list Z := fst r :: flat_map (fun p => [Z.of_N (fst p); Z.of_N (snd p)]) (snd r)."]
     for procs, ldt, tf in cases:
-        pl = "; ".join("{| kind := PPub %d%%N; period := %d |}" % (t, per) for t, per in procs) + "; {| kind := PLog; period := %d |}" % ldt
+        pl = "; ".join(("{| kind := PSet %d; period := %d |}" % (q[1], q[2])) if q[0] == "set" else ("{| kind := PPub %d%%N; period := %d |}" % (q[0], q[1])) for q in procs) + "; {| kind := PLog; period := %d |}" % ldt
         lines.append("Eval vm_compute in (map show (simulate [%s] %d 4000%%nat))." % (pl, tf))
     txt = coqc_eval(lines, "sched_cases")
     res = re.findall(r"=\s*(\[.*?\])\s*:\s*list \(list Z\)", txt)
     if len(res) != len(cases):
         raise RuntimeError("sched: parsed %d results for %d cases" % (len(res), len(cases)))
     dis = []
-    stats = {"runs": n, "rows": 0, "processes": 0, "simultaneous_event_runs": 0}
+    stats = {"runs": n, "rows": 0, "processes": 0, "simultaneous_event_runs": 0, "runs_with_logger_dt_updates": 0}
     for (procs, ldt, tf), real, r in zip(cases, reals, res):
         model = []
         for g in re.findall(r"\[([^\[\]]*)\]", r):
@@ -234,8 +263,10 @@ def sched_correspondence(rng, n):
             model.append((v[0], sorted((v[i], v[i + 1]) for i in range(1, len(v), 2))))
         stats["rows"] += len(real)
         stats["processes"] += len(procs) + 1
-        if len(set(per for _, per in procs) | {ldt}) < len(procs) + 1:
+        if len(set(q[-1] for q in procs) | {ldt}) < len(procs) + 1:
             stats["simultaneous_event_runs"] += 1
+        if any(q[0] == "set" for q in procs):
+            stats["runs_with_logger_dt_updates"] += 1
         if [(a, [list(x) for x in b]) for a, b in real] != [(a, [list(x) for x in b]) for a, b in model]:
             dis.append({"procs": procs, "logger_dt": ldt, "tf": tf, "real": real[:6], "model": model[:6]})
     return n, dis, stats
